@@ -139,7 +139,14 @@ func (e *Env) applyContract(st *State, ct *Contract, args []Val, rt types.Type, 
 		}
 	}
 	for _, en := range ct.Ensures {
-		st.assume(post.evalBool(en.Expr))
+		saved := e.err
+		g := post.evalBool(en.Expr)
+		if saved == nil && e.err != nil && strings.Contains(e.err.Error(), "callres cannot be used") {
+			// a clause about the callee's own internal calls tells the caller nothing it can use: not assumed
+			e.err = nil
+			continue
+		}
+		st.assume(g)
 	}
 	e.callSeq++
 	rec := CallRec{Name: key, Args: args, Res: res, Seq: e.callSeq, PreW: preW}
